@@ -19,11 +19,23 @@ LEVEL = "exploration"
 
 HEADER = '''
 from guppylang.std.quantum import measure_array
+from guppylang.std.debug import state_result
+from collections.abc import Callable
 
 @guppy.struct
 class S:
     arr: array[int, 2]
     k: int
+
+    @guppy
+    def bump(self: "S") -> None:
+        self.arr[0] += 1
+        self.arr[1] = self.k
+
+    @guppy
+    def bump_by(self: "S", other: array[int, 2]) -> None:
+        self.arr[1] += other[0]
+        other[1] += 100
 
 @guppy.struct
 class O:
@@ -83,6 +95,18 @@ def qflip(s: Q) -> None:
 def both(a: qubit, b: qubit) -> None:
     x(a)
     cx(a, b)
+
+@guppy
+def apply1(f: Callable[[array[int, 2]], None], a: array[int, 2]) -> None:
+    f(a)
+
+@guppy
+def apply2(f: Callable[[array[int, 2], array[int, 2]], None], a: array[int, 2], b: array[int, 2]) -> None:
+    f(b, a)
+
+@guppy
+def gswap[T](u: T, w: T) -> None:
+    mem_swap(u, w)
 
 @guppy
 def add_into(src: array[int, 2], dst: array[int, 2]) -> None:
@@ -188,6 +212,7 @@ def programs(tier):
     out.append(("int-array", "loop", "nested-in-loop", ["a = array(1, 2)", "for _ in range(3):", "    nested(a)",
                                                         'result("o0", a[0])', 'result("o1", a[1])'], 0))
     out += multi_programs(tier)
+    out += mechanism_programs(tier)
     out.append(("int-array", "branch", "call-in-branch", ["a = array(1, 2)", "if i == 0:", "    set0(a)", "else:", "    inc1(a)",
                                                           'result("o0", a[0])', 'result("o1", a[1])'], 1))
     return out
@@ -242,6 +267,61 @@ def multi_programs(tier):
     return out
 
 
+# ---- every call MECHANISM that lends an argument: direct call (above), call of a function value, a function
+# passed on as an argument, function tensor, method with borrowed self, generic callee, barrier, state_result
+def mechanism_programs(tier):
+    out = []
+    for (pname, setup, place, obs, nidx) in arr_places():
+        extra = ["zz = array(7, 8)"]
+        eobs = ['result("zz0", zz[0])', 'result("zz1", zz[1])']
+        forms = {
+            "function-value": ["f = inc1", f"f({place})", "g = nested", f"g({place})"],
+            "function-value-two-args": ["f = add_into", f"f(zz, {place})", f"f({place}, zz)"],
+            "function-as-argument": [f"apply1(set0, {place})", f"apply1(swap01, {place})"],
+            "function-as-argument-two": [f"apply2(add_into, {place}, zz)"],
+            "tensor-call": [f"(set0, inc1)({place}, zz)"],
+            "tensor-call-reversed": [f"(inc1, swap01)(zz, {place})"],
+            "tensor-call-two-arg-callee": [f"(add_into, set0)({place}, zz, zz)" if False else f"(inc1, add_into)(zz, zz2, {place})"],
+            "generic-callee": [f"gswap({place}, zz)"],
+            "generic-callee-reversed": [f"gswap(zz, {place})"],
+        }
+        for fn, lines in forms.items():
+            if fn.startswith("generic-callee") and pname in ("tuple-element", "array-element-impure-index"):
+                continue     # the oracle's rewrite of the swap needs an assignable, side-effect-free place
+            out.append(("int-array", f"{pname}", f"mechanism:{fn}", list(setup) + extra + ["zz2 = array(70, 80)"] + lines + obs + eobs +
+                        ['result("zz20", zz2[0])', 'result("zz21", zz2[1])'], nidx))
+    for (pname, setup, place, obs, nidx) in s_places():
+        for fn, lines in {"method-borrowed-self": [f"{place}.bump()"],
+                          "method-borrowed-self-and-arg": ["zz = array(7, 8)", f"{place}.bump_by(zz)", 'result("zz0", zz[0])', 'result("zz1", zz[1])'],
+                          }.items():
+            out.append(("struct", pname, f"mechanism:{fn}", list(setup) + lines + obs, nidx))
+    for (pname, setup, place, obs, nidx) in q_places():
+        for fn, lines in {"barrier": ["q9 = qubit()", f"barrier({place}, q9)", f"x({place})", "x(q9)", f"barrier(q9, {place})", 'result("m9", measure(q9))'],
+                          "state-result": ["q9 = qubit()", f"x({place})", f'state_result("st", {place}, q9)', f"z({place})", 'result("m9", measure(q9))']}.items():
+            out.append(("qubit", pname, f"mechanism:{fn}", list(setup) + lines + obs, nidx))
+    return out
+
+
+import re as _re
+
+_TENSOR = _re.compile(r"^(\s*)\((\w+), (\w+)\)\((.*)\)$", _re.M)
+_GSWAP = _re.compile(r"^(\s*)gswap\((.+), (.+)\)$", _re.M)
+_ARITY = {"set0": 1, "inc1": 1, "swap01": 1, "nested": 1, "add_into": 2}
+
+
+def py_variant(src: str) -> str:
+    """For the CPython oracle only: a function tensor `(f, g)(a, b, c)` is the calls f(...) then g(...) on
+    consecutive argument groups; a generic swap of two places is reads followed by write-backs; state_result
+    reports nothing."""
+    def tensor(m):
+        ind, f, g, args = m.group(1), m.group(2), m.group(3), [a.strip() for a in m.group(4).split(",")]
+        nf = _ARITY[f]
+        return f"{ind}{f}({', '.join(args[:nf])}); {g}({', '.join(args[nf:])})"
+    src = _TENSOR.sub(tensor, src)
+    src = _GSWAP.sub(lambda m: f"{m.group(1)}_sw_a = {m.group(2)}; _sw_b = {m.group(3)}; {m.group(2)} = _sw_b; {m.group(3)} = _sw_a", src)
+    return src
+
+
 def source(body):
     return HEADER + "\n@guppy\ndef main(i: int, j: int) -> None:\n" + "\n".join("    " + l for l in body) + "\n"
 
@@ -254,6 +334,7 @@ class _Oracle(pyoracle.Oracle):
             return pyoracle.PyArray(*[ns["measure"](q) for q in qs])
 
         ns["measure_array"] = measure_array
+        ns["state_result"] = lambda *a: None
         return ns
 
 
@@ -276,7 +357,7 @@ def eval_program(item):
         return res
     res["status"] = "accepted"
     h = o.package.modules[0]
-    code = pyoracle.prepare(gload.PRELUDE + src)
+    code = pyoracle.prepare(gload.PRELUDE + py_variant(src))
     rng = {"array-element": 3 if payload != "struct" else 2, "field-of-array-element": 2}.get(pname, 2)
     if nidx == 0:
         inputs = [(0, 0)]
@@ -311,6 +392,8 @@ def eval_program(item):
 
 
 def run(ctx):
+    import guppylang_internals.experimental as ex
+    ex.enable_experimental_features()          # function tensors
     progs = programs(ctx.tier)
     results = ctx.pmap(eval_program, progs, chunk=4)
     acc = rej = runs = 0
@@ -346,5 +429,7 @@ def run(ctx):
 
 
 def replay(ctx, item):
+    import guppylang_internals.experimental as ex
+    ex.enable_experimental_features()
     r = eval_program(tuple(item["item"]))
     return {"violation": bool(r["dis"]), "result": r, "source": source(item["item"][3])}
